@@ -39,6 +39,14 @@ FIXED = [
   "the empty map `{}` printed by the library could not be parsed back in predicate position (the set parser ran first and failed hard)"),
  ("C14", "fix: 'hex:' parses as the empty byte array", "C14/term/bytes-empty, *-bytes-empty",
   "the empty byte array is printed `hex:` but the parser required at least one hex digit"),
+ ("C19", "fix: C API add_* calls keep the builder usable", "C19/abort/*/after-a-failed-add",
+  "a fact / rule / check / policy string that failed to parse (or was not UTF-8) left the wrapped builder empty: the next biscuit_builder_* / block_builder_* / authorizer_builder_* / build / append call on the handle unwrapped None and aborted the process"),
+ ("C19", "fix: C API sealed size and sealed serialization", "C19/abort/SerializeSealed/{ed25519,secp256r1}; C19/differs-from-rust/Sizes/biscuit_sealed_size",
+  "biscuit_sealed_size returned the unsealed size and biscuit_serialize_sealed copied the sealed bytes into a slice of the unsealed length: every call aborted the process"),
+ ("C19", "fix: C API reports construction failures", "C19/differs-from-rust/From{Truncated,OtherRoot}/biscuit_from failed",
+  "biscuit_from, biscuit_builder_build, biscuit_authorizer and authorizer_builder_build* dropped the Rust error (error_kind() stayed None or stale); a NULL authorizer builder recorded InvalidArgument and then unwrapped it"),
+ ("C19", "fix: public_key_serialize refuses a key", "C19/abort/PubRoundTrip/secp256r1",
+  "public_key_serialize copied a 33-byte secp256r1 key into the 32-byte buffer slice: abort"),
 ]
 log = subprocess.run(["git", "-C", "/repo", "log", "--format=%H %s"], capture_output=True, text=True).stdout.splitlines()
 path = os.path.join(ROOT, "known_findings.json")
